@@ -29,6 +29,29 @@ def task_steps(pr, repo, tag):
                          what='C13 record step')
 
 
+def task_group_level(pr, repo):
+    """GL: once the reader has let an atom through, nothing downstream drops its group because of the chain selection: a group of a
+    selected chain - also the blank chain, which atoms store as '_' while the option holds ' ' - is initialised and kept."""
+    ex = Executor(repo)
+    CCn = 'propka.conformation_container.ConformationContainer'
+    fi = repo.func(CCn + '.setup_and_add_group')
+    pr.under_contract(fi)
+    A = repo.cls('propka.atom.Atom')
+    for chains, atom_chain in ((None, 'A'), ([' '], '_'), (['A'], 'A'), ([' ', 'B'], '_'), (['B', ' '], 'B'), (['a'], 'a')):
+        def thunk(ex, ctx, chains=chains, atom_chain=atom_chain):
+            seen = []
+            ex.contracts[CCn + '.init_group'] = lambda ex_, c_, f_, a, k, so: seen.append(a[0])
+            opts = record('options', None, chains=chains, titrate_only=None)
+            mol = record('mol', None, options=opts)
+            conf = record('conf', repo.cls(CCn), groups=[], molecular_container=mol, options=opts, parameters=record('P', None))
+            at = record('at', A, chain_id=atom_chain, res_num=5, icode=' ', type='atom', molecular_container=mol)
+            g = record('g', repo.cls('propka.group.Group'), atom=at)
+            ex.call_function(fi, [g], self_obj=conf)
+            ctx.oblige('GL[-c %r, atom chain %r]: the group of an atom the reader let through is initialised and kept' % (chains, atom_chain),
+                       len(seen) == 1 and seen[0] is g and conf.attrs['groups'] == [g])
+        pr.explore(ex, thunk, 'setup_and_add_group chains=%r' % (chains,))
+
+
 def task_plumbing(pr, repo):
     ex = Executor(repo)
     fi = repo.func('propka.input.read_pdb')
@@ -71,7 +94,7 @@ def task_plumbing(pr, repo):
 
 
 def run(pr, repo):
-    pr.parallel([(task_steps, (t,)) for t in reader.TAGS] + [(task_plumbing, ())])
+    pr.parallel([(task_steps, (t,)) for t in reader.TAGS] + [(task_plumbing, ()), (task_group_level, ())])
     c = frames.census(repo)
     readers = {r for r in c.readers('chains')}
     allowed = {'propka.input.read_pdb',                                   # options.chains -> reader
